@@ -78,6 +78,6 @@ func (o *nativeObj) method(name string) *Native { return o.methods[name] }
 // universeEntry is a member of the finite content universe used by the digest model.
 type universeEntry struct {
 	alg     string
-	content []*Term
+	content []Value
 	digest  string
 }
